@@ -335,6 +335,7 @@ CELLS = {}
 
 def _reg(name_fn, tiers, timeout, family, bounds, twin=False, cost=None):
     name, fn = name_fn
+    assert name not in CELLS, 'duplicate cell name ' + name
     CELLS[name] = dict(fn=fn, tiers=tiers, timeout=timeout, family=family, bounds=bounds, twin=twin, cost=cost or timeout)
 
 
